@@ -595,6 +595,13 @@ def pt2(e): return sq(e.pt) + sq(e.pt + 1)
 class Cfg:
     THR = 5
 def over_thr(e): return e.pt > Cfg.THR
+# the loop idiom: a default freezes the loop variable; after the loop the name stands for the LAST value (values python counts as
+# false among them)
+loop_cuts, loop_lambdas = [], []
+for thr in (0, 25, 0.0, False, "", 50):
+    def passes(e, *, thr=thr): return e.pt > thr
+    loop_cuts.append(passes)
+    loop_lambdas.append(lambda e, *, thr=thr, on=not thr: (e.pt > thr, on))
 keep_lambda = lambda e: e.pt > PT_CUT
 def q_where(ds, fn): return ds.Where(fn)
 def q_select(ds, fn): return ds.Select(fn)
@@ -654,6 +661,28 @@ def def_history(ctx, rounds=8):
                 got = frozenset([((), f"<compile/eval failed: {type(e).__name__}: {e}>")])
             if got != expected:
                 ctx.violation("def-history:values-of-another-moment", f"{what}, round {rd} (PT_CUT={m.PT_CUT!r}, LABEL={m.LABEL!r}, THR={m.Cfg.THR!r}, cut={cut!r}, k={k!r}): python gives {probe.describe(expected, 2)}, recorded {astx.unparse(lam)[:200]} gives {probe.describe(got, 2)}", {"def_history": True})
+    for i, fn in enumerate(list(m.loop_cuts) + list(m.loop_lambdas)):
+        what = f"function #{i} made in a loop, its default freezing the loop variable ({fn.__kwdefaults__!r})"
+        ctx.case(f"def-history:loop-idiom:{i}", True)
+        ctx.count("def-history-queries")
+        expected = probe.behaviour(fn)
+        try:
+            lam = m.q_where(ds, fn).query_ast.args[1] if i < len(m.loop_cuts) else m.q_select(ds, fn).query_ast.args[1]
+        except ValueError as e:
+            if i >= len(m.loop_cuts):
+                ctx.count("def-history:refused (a lambda kept in a list need not be recoverable)")
+                continue
+            ctx.violation("def-history:exc:ValueError", f"{what}: ValueError: {str(e)[:200]}", {"def_history": True})
+            continue
+        except Exception as e:
+            ctx.violation(f"def-history:exc:{type(e).__name__}", f"{what}: {type(e).__name__}: {str(e)[:200]}", {"def_history": True})
+            continue
+        try:
+            got = probe.behaviour(probe.compile_lambda(lam, {}))
+        except Exception as e:
+            got = frozenset([((), f"<compile/eval failed: {type(e).__name__}: {e}>")])
+        if got != expected:
+            ctx.violation("def-history:values-of-another-moment", f"{what}: python gives {probe.describe(expected, 2)}, recorded {astx.unparse(lam)[:200]} gives {probe.describe(got, 2)}", {"def_history": True})
     for how in ("deleted", "branch-not-taken"):
         ctx.case(f"def-history:empty-cell:{how}", True)
         try:
